@@ -7,19 +7,26 @@ SAME = 'final(self).buf@ == old(self).buf@ && final(self).file_offset == old(sel
 TS0 = 'token_start(old(self).buf@, old(self).pos as int)'
 
 # ---- ghost text injected into next_word (R1) ---------------------------------------------------------
+NW_LINK = '''assert(self.buf@[i] == self.buf@.subrange(p0 + 1, self.buf@.len() as int)[i - (p0 + 1)]);'''
+# inside `if let Some(off) = <position of the end of the line>`: off is relative to p0 + 1
 NW_COMMENT_SOME = '''proof {
-    assert forall|i: int| p0 + 1 <= i < p0 + 1 + off implies self.buf@[i] != 10u8 by {
-        assert(self.buf@[i] == self.buf@.subrange(p0 + 1, self.buf@.len() as int)[i - (p0 + 1)]); }
-    assert(self.buf@[p0 + 1 + off] == self.buf@.subrange(p0 + 1, self.buf@.len() as int)[off as int]);
-    if DEV_COMMENT_EOL_LF_ONLY() { lemma_eol_unique(self.buf@, p0 + 1, p0 + 1 + off); }
+    eol_found = true;
+    assert forall|i: int| p0 + 1 <= i <= p0 + 1 + off implies #[trigger] self.buf@[i] == self.buf@.subrange(p0 + 1, self.buf@.len() as int)[i - (p0 + 1)] by { }
+    assert forall|i: int| p0 + 1 <= i < p0 + 1 + off implies self.buf@[i] != 10u8 by { ''' + NW_LINK + ''' }
+    ''' + NW_LINK.replace('[i]', '[p0 + 1 + off]').replace('[i - (p0 + 1)]', '[off as int]') + '''
+    if DEV_COMMENT_EOL_LF_ONLY() || ((forall|i: int| p0 + 1 <= i < p0 + 1 + off ==> !is_eol(self.buf@[i])) && is_eol(self.buf@[p0 + 1 + off])) {
+        lemma_eol_unique(self.buf@, p0 + 1, p0 + 1 + off);
+    }
 } pos += off+1;'''
+# after the `if let`: eol_found is false iff no end of line was found
 NW_COMMENT_JOIN = '''proof {
-    if pos == p0 + 1 {
-        assert forall|i: int| p0 + 1 <= i < self.buf@.len() implies self.buf@[i] != 10u8 by {
-            assert(self.buf@[i] == self.buf@.subrange(p0 + 1, self.buf@.len() as int)[i - (p0 + 1)]); }
-        if DEV_COMMENT_EOL_LF_ONLY() { lemma_eol_none(self.buf@, p0 + 1); }
+    if !eol_found {
+        assert forall|i: int| p0 + 1 <= i < self.buf@.len() implies #[trigger] self.buf@[i] == self.buf@.subrange(p0 + 1, self.buf@.len() as int)[i - (p0 + 1)] by { }
+        assert forall|i: int| p0 + 1 <= i < self.buf@.len() implies self.buf@[i] != 10u8 by { ''' + NW_LINK + ''' }
+        if DEV_COMMENT_EOL_LF_ONLY() || (forall|i: int| p0 + 1 <= i < self.buf@.len() ==> !is_eol(self.buf@[i])) { lemma_eol_none(self.buf@, p0 + 1); }
     }
     lemma_ts_comment(self.buf@, p0, pos as int);
+    assert(token_start(self.buf@, self.buf@.len() as int) is None);
 }
 let ghost e0 = pos as int;
 proof { lemma_ws_end(self.buf@, e0); }
@@ -36,6 +43,8 @@ UNIT = {
    'DEV_UNTERMINATED_COMMENT_IS_LEXED': 'a comment with no LF before the end of the buffer: ISO = no further token; next_word only steps over the % and lexes the comment text as tokens',
    'DEV_STREAM_KEYWORD_COMMENT_NOT_SKIPPED': 'ISO 7.2.3 allows a comment between the stream dictionary and the keyword `stream`; next_stream only skips white-space (peek()/next() skip the comment, next_stream then measures 6 bytes from the %)',
    'DEV_NO_PLUS_SIGN': 'ISO 7.3.3: numbers may carry a leading +; is_integer()/real_number() only strip -',
+ },
+ 'tolerances': {  # C03 constrains conformant spellings only; what a NON-number token does is left open by the property
    'DEV_LONE_DOT_IS_REAL': 'ISO 7.3.3 requires at least one digit; real_number() accepts "." and "-."',
    'DEV_REAL_PREFIX_ACCEPTED': 'real_number() returns the longest numeric prefix of a token that is not a number as a whole ("12abc" -> "12", "1.5.6" -> "1.5"); ISO: such a token is not a number',
  },
@@ -64,7 +73,7 @@ UNIT = {
   'Substr::is_integer': {'kind': 'fn', 'file': F, 'container': SB, 'name': 'is_integer', 'props': ['C03', 'C01'],
      'ensures': [('int_grammar', 'r == is_int_lit(self.slice@)')],
      'rewrites': [{'rule': 'R1', 'find': 'is_int(slice)', 'replace':
-        'proof { let s = self.slice@; assert(slice@ =~= s.subrange(if s[0] == 45u8 { 1int } else { 0int }, s.len() as int)); } is_int(slice)'}]},
+        'proof { let s = self.slice@; assert(slice@ =~= s.subrange(s.len() - slice@.len(), s.len() as int)); } is_int(slice)'}]},
   'Substr::as_slice': {'kind': 'fn', 'file': F, 'container': SB, 'name': 'as_slice', 'props': ['C01'],
      'ensures': [('as_slice_is_slice', 'r@ == self.slice@')]},
   'Substr::reslice': {'kind': 'fn', 'file': F, 'container': SB, 'name': 'reslice', 'props': ['C01', 'C17'],
@@ -99,9 +108,8 @@ UNIT = {
      'ensures': [('skip_ws_ok', 'r matches Ok(p) ==> p == ws_end(self.buf@, pos as int) && pos <= p < self.buf@.len()'),
                  ('skip_ws_eof', 'r is Err ==> ws_end(self.buf@, pos as int) >= self.buf@.len() && r matches Err(PdfError::EOF)')],
      'rewrites': [{'rule': 'R7', 'regex': r'boundary\((self\.buf), (pos), is_whitespace\)', 'replace': r'hoist_boundary_ws(\1, \2)'},
-                  {'rule': 'R1', 'find': 'if pos >= self.buf.len() {', 'replace':
-                   'proof { lemma_ws_unique(self.buf@, pos0 as int, pos as int); } if pos >= self.buf.len() {'},
-                  {'rule': 'R1', 'find': 'let pos = hoist_boundary_ws', 'replace': 'let ghost pos0 = pos; let pos = hoist_boundary_ws'}]},
+                  {'rule': 'R1', 'find': 'let pos = hoist_boundary_ws(self.buf, pos);', 'replace':
+                   'let ghost pos0 = pos; let pos = hoist_boundary_ws(self.buf, pos); proof { lemma_ws_unique(self.buf@, pos0 as int, pos as int); }'}]},
   'Lexer::new_substr': {'kind': 'fn', 'file': F, 'container': LX, 'name': 'new_substr', 'props': ['C01', 'C17'],
      'requires': ['self.wf()',
                   'if range.start <= range.end { range.end <= self.buf@.len() } else { range.start < self.buf@.len() }'],
@@ -114,13 +122,15 @@ UNIT = {
      'ensures': [('token_none_is_eof', 'token_start(self.buf@, self.pos as int) is None ==> r matches Err(PdfError::EOF)'),
                  ('token_is_iso_token', 'token_start(self.buf@, self.pos as int) matches Some(s) ==> (r matches Ok((sub, p)) && p == token_end(self.buf@, s) && sub.cut_from(self.buf@, self.file_offset as int, s, p as int) && sub.swf())')],
      'rewrites': [
-        {'rule': 'R7', 'regex': r"(self\.buf\[pos\s*\.\.\])\.iter\(\)\.position\(\|&b\| b == b'\\n'\)", 'replace': r'hoist_position_lf(&\1)'},
+        {'rule': 'R7', 'count': '*', 'regex': r"(self\.buf\[pos\s*\.\.\])\.iter\(\)\.position\(\|&b\| b == b'\\n'\)", 'replace': r'hoist_position_lf(&\1)'},
+        # shape after findings/comment_eol_cr_fix.diff (either this or the previous one matches; neither -> Verus rejects the closure -> undecided)
+        {'rule': 'R7', 'count': '*', 'regex': r"(self\.buf\[pos\s*\.\.\])\.iter\(\)\.position\(\|&b\| b == b'\\n' \|\| b == b'\\r'\)", 'replace': r'hoist_position_lf_cr(&\1)'},
         {'rule': 'R7', 'regex': r'self\.buf\.get\((pos)\.\.=(pos\+1)\)', 'replace': r'hoist_get_incl(self.buf, \1, \2)'},
         {'rule': 'R7', 'find': 'slice == b"<<"', 'replace': 'hoist_eq_ltlt(slice)'},
         {'rule': 'R7', 'find': 'slice == b">>"', 'replace': 'hoist_eq_gtgt(slice)'},
         {'rule': 'R1', 'find': 'let mut pos = self.skip_whitespace(self.pos)?;', 'replace':
          'proof { lemma_ws_end(self.buf@, self.pos as int); } let mut pos = self.skip_whitespace(self.pos)?; proof { lemma_ts_shift(self.buf@, self.pos as int, pos as int); }'},
-        {'rule': 'R1', 'find': 'pos += 1;', 'replace': 'let ghost p0 = pos as int; pos += 1;'},
+        {'rule': 'R1', 'find': 'pos += 1;', 'replace': 'let ghost p0 = pos as int; let ghost mut eol_found = false; pos += 1;'},
         {'rule': 'R1', 'find': 'pos += off+1;', 'replace': NW_COMMENT_SOME},
         {'rule': 'R1', 'find': 'pos = self.skip_whitespace(pos)?;', 'replace': NW_COMMENT_JOIN},
         {'rule': 'R1', 'find': 'let start_pos = pos;', 'replace': 'let start_pos = pos; proof { lemma_ws_unique(self.buf@, pos as int, pos as int); }'},
@@ -200,15 +210,15 @@ UNIT = {
         {'rule': 'R7', 'find': 'slice.iter().position(|&b| !b.is_ascii_digit())', 'replace': 'hoist_position_nondigit(slice)'},
         {'rule': 'R1', 'find': 'let mut slice = self.slice;', 'replace': 'let mut slice = self.slice; let ghost s = self.slice@;'},
         {'rule': 'R1', 'find': 'if let Some(i) = hoist_position_dot(slice) {', 'replace':
-         'let ghost k: int = if s[0] == 45u8 { 1 } else { 0 }; let ghost t = slice@; proof { assert(t =~= s.subrange(k, s.len() as int)); } '
+         'let ghost k: int = s.len() - slice@.len(); let ghost t = slice@; proof { assert(t =~= s.subrange(k, s.len() as int)); } '
          'let ghost mut dot: Option<int> = None; '
          'if let Some(i) = hoist_position_dot(slice) { proof { dot = Some(i as int); lemma_ureal_firstdot(t, i as int); }'},
         {'rule': 'R1', 'find': 'if let Some(len) = hoist_position_nondigit(slice) {', 'replace':
-         'let ghost u = slice@; proof { assert(real_scan(t, dot, u)); } '
-         'if let Some(len) = hoist_position_nondigit(slice) { proof { lemma_real_some(t, dot, u, len as int); }'},
+         'let ghost u = slice@; '
+         'if let Some(len) = hoist_position_nondigit(slice) { proof { if real_scan(t, dot, u) { lemma_real_some(t, dot, u, len as int); } }'},
         {'rule': 'R1', 'find': 'Some(Substr {', 'replace':
          'proof { assert(self.slice@.subrange(0, end as int).subrange(k, end as int) =~= t.subrange(0, end - k)); assert(self.slice@.subrange(0, end as int)[0] == s[0]); } Some(Substr {'},
-        {'rule': 'R1', 'find': 'else { Some(*self) }', 'replace': 'else { proof { lemma_real_none(t, dot, u); } Some(*self) }'},
+        {'rule': 'R1', 'find': 'else { Some(*self) }', 'replace': 'else { proof { if real_scan(t, dot, u) { lemma_real_none(t, dot, u); } } Some(*self) }'},
      ]},
   'Substr::is_real_number': {'kind': 'fn', 'file': F, 'container': SB, 'name': 'is_real_number', 'props': ['C03', 'C01'],
      'ensures': [('is_real_accepts_conformant', 'is_real_lit(self.slice@) ==> r'),
